@@ -81,10 +81,19 @@ FlushOutput(st, w) ==
         input == SortEntries(UNION {st.mem[sv.sealed[i]] : i \in 1..Len(sv.sealed)})
     IN CompactionStream(input, w, FALSE, "none").out
 
-OpFlush(st, w) ==
+\* key-value separation at flush (BlobTree::flush_to_tables): values whose byte length
+\* reaches the threshold are written to a blob file, the table keeps a pointer ("I").
+\*   sep = [on |-> BOOLEAN, big |-> set of model values that reach the threshold]
+NoSep == [on |-> FALSE, big |-> {}]
+Separate(sep, out) ==
+    IF ~sep.on THEN out
+    ELSE [j \in 1..Len(out) |->
+            IF out[j].t = "V" /\ out[j].v \in sep.big THEN [out[j] EXCEPT !.t = "I"] ELSE out[j]]
+
+OpFlushSep(st, w, sep) ==
     LET sv == Latest(st) IN
     IF sv.sealed = <<>> THEN st
-    ELSE LET out == FlushOutput(st, w)
+    ELSE LET out == Separate(sep, FlushOutput(st, w))
              id  == st.tblId
              T2  == IF out = <<>> THEN st.tbl ELSE st.tbl @@ (id :> [e |-> out, g |-> 0])
              run == IF out = <<>> THEN <<>> ELSE <<id>>
@@ -92,6 +101,8 @@ OpFlush(st, w) ==
              s1  == [st EXCEPT !.tblId = id + 1, !.tbl = T2, !.seq = @ + 1]
              s2  == Install(s1, nsv, st.seq)
          IN Collect([s2 EXCEPT !.hist = Maintain(@, w)])
+
+OpFlush(st, w) == OpFlushSep(st, w, NoSep)
 
 \* split a compaction output into tables: cut = set of indices i such that a new
 \* table starts at out[i] (always between distinct user keys)
